@@ -147,7 +147,11 @@ class Number(Parser):
         stream.take()
         while stream.peek().isdecimal():
             out += stream.take()
-        output.append(int(out))
+        try:
+            output.append(int(out))
+        except ValueError:
+            # more digits than int() converts
+            stream.error('<number>')
 
     def __str__(self):
         return '<number>'
